@@ -19,7 +19,7 @@ from .types import (DICT_METHODS, LIST_METHODS, NODE_Q, NULLABLE_TYPES, RULE_Q, 
 
 RET = "$ret"
 STORE = "$store"
-TRANSFER = {"clsval", "constval", "nn", "none", "known", "rulekey", "parses", "lenge", "member", "haskey", "desc", "reg", "isstr", "falsy", "listed"}
+TRANSFER = {"ub", "lb", "clsval", "constval", "nn", "none", "known", "rulekey", "parses", "lenge", "member", "haskey", "desc", "reg", "isstr", "falsy", "listed"}
 
 # externals and builtins that accept None arguments without raising
 NONE_TOLERANT = {
@@ -823,9 +823,11 @@ class Domain:
             for f in st:
                 if f[0] == "ub" and f[1] == p:
                     k = f[3] - d
-                    out.add(("ub", p, f[2], k))
+                    if k >= 1:  # weaker bounds are useless and would descend for ever around a loop
+                        out.add(("ub", p, f[2], k))
                 elif f[0] == "lb" and f[1] == p:
-                    out.add(("lb", p, f[2] + d))
+                    if f[2] + d >= -2:
+                        out.add(("lb", p, f[2] + d))
                 elif f[0] == "inv" or not F.mentions(f, p):
                     out.add(f)
                 elif f[0] == "nn" and f[1] == p:
@@ -874,6 +876,7 @@ class Domain:
                         out.append(("imp", p, f))
             if isinstance(v, int) and not isinstance(v, bool):
                 out.append(("lb", p, v))
+                out.append(("eqc", p, v))
         if isinstance(value, (ast.List, ast.Tuple)):
             out.append(("lenge", p, len(value.elts)))
         if (isinstance(value, ast.List) and not value.elts) or (isinstance(value, ast.Call) and isinstance(value.func, ast.Name)
@@ -1173,6 +1176,17 @@ class Domain:
                     out.add(("haskey", STORE, p))
             if isinstance(a, (ast.Tuple, ast.List)):
                 out.add(("lenge", p, len(a.elts)))
+            if isinstance(a, ast.Call) and id(a) in self.call_info:
+                # facts about the value an inner call returns travel with it into the parameter
+                common = None
+                for (s_in, back_in) in self.call_info[id(a)]:
+                    g = set()
+                    for fact in (s_in.ret_facts or frozenset()):
+                        tf = back_in(fact, ret=p)
+                        if tf is not None and tf[0] in TRANSFER and all(q == p for q in F.paths_of(tf)):
+                            g.add(tf)
+                    common = g if common is None else (common & g)
+                out |= (common or set())
             if isinstance(a, (ast.Name, ast.Attribute)) and not (isinstance(a, ast.Name) and a.id in self.ft.env):
                 rc = resolve_exc_class(self.eng.prog, self.fi.module, a)
                 if rc is not None and self.eng.h.known(rc):
@@ -1225,7 +1239,7 @@ class Domain:
                 if q is not None:
                     out.add((k, q, f[2]))
                 continue
-            qs = [fwd(x) for x in f[1:]]
+            qs = [fwd(x) if isinstance(x, str) else x for x in f[1:]]
             if all(q is not None for q in qs):
                 out.add((k,) + tuple(qs))
         # keep only facts that mention a parameter
